@@ -202,3 +202,11 @@ pub proof fn lemma_warmup_roofing(h: Seq<T>, o: RoofingFilterOwn)
     requires o.k == 0, o.ss.1.k == 0, o.ss.1.n >= 1
     ensures RoofingFilter::<Echo>::out(run::<RoofingFilter<Echo>>((None::<T>, o), h)).is_some() == (h.len() >= o.n + o.ss.1.n + 1)
 { lemma_run_roofing_counter(h, o); }
+// PolarizedFractalEfficiency reports what its moving average reports: its readiness never reverts provided the moving average's does not
+// (stated for an arbitrary moving-average type M; every wrapper of the catalogue satisfies the hypothesis by the lemmas above)
+pub open spec fn ready_monotone<M: View>() -> bool { forall|s: M::S, x: T| #![trigger M::step(s, x)] M::out(s).is_some() ==> M::out(M::step(s, x)).is_some() }
+pub proof fn lemma_ready_monotone_pfe<M: View>(o: PolarizedFractalEfficiencyOwn<M>, y: T)
+    requires ready_monotone::<M>(), o.n >= 1, o.o == M::out(o.ma) || o.o.is_none()
+    ensures polarized_fractal_efficiency_own_out::<M>(o).is_some() ==> polarized_fractal_efficiency_own_out::<M>(polarized_fractal_efficiency_own_step::<M>(o, y)).is_some(),
+        ({ let s = polarized_fractal_efficiency_own_step::<M>(o, y); s.o == M::out(s.ma) || s.o.is_none() })
+{}
